@@ -161,6 +161,12 @@ func (r *resolver) enter(d Definition) ([]Definition, error) {
 	if hasCases, valid := d.(*Choice); valid {
 		for _, cident := range hasCases.CaseIdents() {
 			c := hasCases.cases[cident]
+			if on, err := checkFeature(c); err != nil {
+				return nil, err
+			} else if !on {
+				delete(hasCases.cases, cident)
+				continue
+			}
 			if _, err := r.addDefinitions(c, c.popDataDefinitions()); err != nil {
 				return nil, err
 			}
@@ -800,6 +806,11 @@ func (r *resolver) expandAugment(y *Augment, parent Meta) error {
 		d := orig.(cloneable).clone(target).(Definition)
 		if targetIsChoice {
 			if cs, isCase := d.(*ChoiceCase); isCase {
+				if on, ferr := checkFeature(cs); ferr != nil {
+					return ferr
+				} else if !on {
+					continue
+				}
 				if err = targetChoice.addCase(cs); err != nil {
 					return err
 				}
